@@ -85,14 +85,16 @@ class Interstitial(object):
         if self.NV > 0:
             # invertible if inversion is present
             self.omega_invertible = any(np.allclose(g.cartrot, -np.eye(self.dim)) for g in crys.G)
-        if self.omega_invertible:
-            # invertible, so just use solve for speed (omega is technically *negative* definite)
-            self.bias_solver = lambda omega, b: -solve(-omega, b, assume_a='pos')
-        else:
-            # pseudoinverse required:
-            # cutoff well above the round-off of the projected omega (eps * largest rate), which can exceed
-            # the default cutoff (eps * largest singular value of the projection) when the bias-carrying jumps are slow
-            self.bias_solver = lambda omega, b: np.dot(np.linalg.pinv(omega, rcond=1e-10), b)
+        # The null space of the projected omega matrix is known exactly: sqrt(rho) times a constant vector on each
+        # connected component of the jump network, projected onto the vector basis (empty with inversion, unless
+        # the network is disconnected). It is removed explicitly in bias_solver, rather than with a numerical
+        # cutoff on the singular values, which fails when the rates span many orders of magnitude.
+        component = list(range(self.N))
+        for jumplist in self.jumpnetwork:
+            for (i, j), dx in jumplist:
+                ci, cj = component[i], component[j]
+                if ci != cj: component = [ci if c == cj else c for c in component]
+        self.nullcomponents = [[i for i in range(self.N) if component[i] == c] for c in sorted(set(component))]
         # these pieces are needed in order to compute the elastodiffusion tensor
         self.sitegroupops = self.generateSiteGroupOps()  # list of group ops to take first rep. into whole list
         self.jumpgroupops = self.generateJumpGroupOps()  # list of group ops to take first rep. into whole list
@@ -215,6 +217,31 @@ class Interstitial(object):
             for k in d.keys():
                 superdict['indices'][k] = self.tagdict[k]  # keep a local copy of the indices, for transformation later
         return superdict
+
+    def bias_solver(self, omega_v, bias_v, sqrtrho):
+        """
+        Solves omega_v*gamma_v = bias_v in the vector basis, orthogonal to the null space of omega_v.
+
+        :param omega_v: symmetrized rate matrix, projected onto the vector basis
+        :param bias_v: bias vector, projected onto the vector basis
+        :param sqrtrho: square root of site probabilities; defines the null space of omega
+        :return gamma_v: solution vector
+        """
+        null = []
+        for comp in self.nullcomponents:
+            norm = np.sqrt(sum(sqrtrho[i] ** 2 for i in comp))
+            if norm == 0: continue
+            for d in range(self.dim):
+                null.append([sum(sqrtrho[i] * va[i, d] for i in comp) / norm for va in self.VectorBasis])
+        u, sv, vt = np.linalg.svd(np.array(null).T, full_matrices=True)
+        nnull = np.count_nonzero(sv > 1e-8)  # null vectors have unit norm or vanish by symmetry
+        if nnull == 0:
+            # invertible, so just use solve for speed (omega is technically *negative* definite)
+            return -solve(-omega_v, bias_v, assume_a='pos')
+        if nnull == self.NV: return np.zeros(self.NV)
+        # solve in the orthogonal complement of the null space
+        Q = u[:, nnull:]
+        return -np.dot(Q, solve(-np.dot(Q.T, np.dot(omega_v, Q)), np.dot(Q.T, bias_v), assume_a='pos'))
 
     def generateSiteGroupOps(self):
         """
@@ -419,7 +446,7 @@ class Interstitial(object):
                 for b, vb in enumerate(self.VectorBasis):
                     omega_v[a, b] = np.trace(np.dot(va.T, np.dot(omega_ij, vb)))
                     domega_v[a, b] = np.trace(np.dot(va.T, np.dot(domega_ij, vb)))
-            gamma_v = self.bias_solver(omega_v, bias_v)
+            gamma_v = self.bias_solver(omega_v, bias_v, sqrtrho)
             dgamma_v = np.dot(domega_v, gamma_v)
             Dcorrection = np.dot(np.dot(self.VV, bias_v), gamma_v)
             Db += np.dot(np.dot(self.VV, dbias_v), gamma_v) \
@@ -509,7 +536,7 @@ class Interstitial(object):
                 for b, vb in enumerate(self.VectorBasis):
                     omega_v[a, b] = np.tensordot(va, np.tensordot(omega_ij, vb, ((1), (0))), ((0, 1), (0, 1)))
                     domega_v[a, b] = np.tensordot(va, np.tensordot(domega_ij, vb, ((1), (0))), ((0, 1), (0, 3)))
-            gamma_v = self.bias_solver(omega_v, bias_v)
+            gamma_v = self.bias_solver(omega_v, bias_v, sqrtrho)
             dg = np.tensordot(domega_v, gamma_v, ((1), (0)))
             # need to project gamma_v *back onto* our sites; not sure if we can just do with a dot since
             # self.VectorBasis is a list of Nx3 matrices
